@@ -1,7 +1,7 @@
 #!/bin/bash
 # run_all.sh [tier] [seed]: every check once; prints id, exit code, wall time
 tier=${1:-quick}; seed=${2:-0}
-cd /verif
+cd "$(dirname "$0")/.." || exit 2
 for id in C01 C02 C03 C04 C05 C06 C07 C08 C09 C10 C11 C12 C13 C14 C15 C16 C17 C18 C19 C20; do
   s=$(date +%s.%N)
   VERIF_SEED=$seed timeout 3600 ./check $id --tier $tier > /tmp/runall_$id.out 2>&1; rc=$?
